@@ -343,7 +343,7 @@ def d4(ctx, prog):
         ok = 'cls.__call__=abc.abstractmethod(pre_call)' in txt or 'cls.__call__=pre_call' in txt
         pre = [h for h in prog.funcs if h.parent is new and h.name == 'pre_call']
         ok = ok and bool(pre) and any(d.endswith('preprocess') for h in prog.funcs if h.parent in pre for d, c in prog.decorators(h))
-    ctx.check(ok, 'C18-D4', f'{meta.key}::wraps __call__', 'the metaclass does not wrap every subclass __call__ with the preprocess decorator',
+    ctx.pattern(ok, 'C18-D4', f'{meta.key}::wraps __call__', 'the metaclass does not wrap every subclass __call__ with the preprocess decorator',
               'every Preprocess subclass __call__ is wrapped by the decorator', meta.mod.relpath)
 
 
